@@ -28,6 +28,12 @@ R2.5 carried-over parts: every metadata section of CFG_METADATA present in
      the source plus `user` (and no analysis section) reaches
      store_metadata; all logs / tables are stored under the prefix exactly
      when requested.
+R2.8 existing files (evaluated symbolically on a model file system): for
+     hdf5 / tsv / fcs / avi the exists test, the removal of an existing file
+     under ``override=True`` and the writer all act on the final,
+     suffix-normalised path: an existing final file is refused without
+     override, removed (never appended to) with override, and no other file
+     is touched.
 R2.7 lazy accessors: a feature accessor of a hierarchy child that fills a
      memo on first use (``if self._array is None: self._array = …``) must
      not let per-call arguments (dtype, copy, …) flow into the remembered
@@ -223,6 +229,11 @@ class WriterFactory:
                  compression="deprecated"):
         self.hw.mode = mode
         self.opened.append(mode)
+        fs = getattr(path_or_h5file, "fs", None)
+        if fs is not None:
+            nm = str(path_or_h5file)
+            fs.events.append(("writer", nm, mode, nm in fs.existing))
+            fs.existing.add(nm)
         return self.hw
 
     def get_best_nd_chunks(self, item_shape, item_dtype=None):
@@ -240,10 +251,22 @@ class FileM:
         self.sink.append(s)
 
 
+class FSM:
+    """model file system: which names exist, what was opened for writing"""
+
+    def __init__(self, existing=()):
+        self.existing = set(existing)
+        self.events = []
+
+
 class PathM:
-    def __init__(self, name="out.rtdc", written=None):
+    def __init__(self, name="out.rtdc", written=None, fs=None):
         self._name = name
         self.written = written if written is not None else []
+        self.fs = fs if fs is not None else FSM()
+
+    def _new(self, name):
+        return PathM(name, self.written, self.fs)
 
     @property
     def suffix(self):
@@ -254,31 +277,51 @@ class PathM:
         return self._name
 
     @property
+    def stem(self):
+        return self._name.rsplit(".", 1)[0]
+
+    @property
     def parent(self):
-        return PathM("dir", self.written)
+        return self._new("dir/")
 
     def __truediv__(self, o):
-        return PathM(str(o), self.written)
+        return self._new(str(o))
 
     def with_name(self, n):
-        return PathM(n, self.written)
+        return self._new(n)
 
     def with_suffix(self, s):
-        return PathM(self._name.rsplit(".", 1)[0] + s, self.written)
+        return self._new(self._name.rsplit(".", 1)[0] + s)
 
     def exists(self):
-        return False
+        return self._name in self.fs.existing or self._name.endswith("/")
 
-    def unlink(self, *a, **k):
-        pass
+    def is_file(self):
+        return self._name in self.fs.existing
+
+    def unlink(self, missing_ok=False):
+        if self._name not in self.fs.existing:
+            if missing_ok:
+                return
+            raise ModelFault(f"unlink of '{self._name}', which does not "
+                             f"exist (FileNotFoundError)")
+        self.fs.existing.discard(self._name)
+        self.fs.events.append(("unlink", self._name))
 
     def mkdir(self, *a, **k):
         pass
 
-    def open(self, mode="r", encoding=None):
+    def open(self, mode="r", encoding=None, **k):
+        existed = self._name in self.fs.existing
+        if any(c in mode for c in "wax+"):
+            self.fs.events.append(("open", self._name, mode, existed))
+            self.fs.existing.add(self._name)
         return FileM(self.written)
 
     def __str__(self):
+        return self._name
+
+    def __fspath__(self):
         return self._name
 
 
@@ -574,7 +617,8 @@ def r21(ctx, repo, feats):
 # R2.3 / R2.5
 
 def run_hdf5(repo, feats, fmt, mask, filtered, lengths, cs=2, logs=True,
-             tables=True, features=None, skip_checks=False):
+             tables=True, features=None, skip_checks=False, path=None,
+             override=False):
     scalars = {k for k, v in feats.items() if v == "scalar"}
     hw = HW()
     mini = base_globals(repo, hw, cs, scalars)
@@ -586,8 +630,9 @@ def run_hdf5(repo, feats, fmt, mask, filtered, lengths, cs=2, logs=True,
     ds = DS(fd, n, fmt, mask, scalars)
     cls = repo.cls(EXP, "Export")
     me = SelfM(mini, cls, ds)
-    me.hdf5(PathM("out.rtdc"), features=features, filtered=filtered,
-            logs=logs, tables=tables, basins=False, skip_checks=skip_checks)
+    me.hdf5(path if path is not None else PathM("out.rtdc"),
+            features=features, filtered=filtered, logs=logs, tables=tables,
+            basins=False, skip_checks=skip_checks, override=override)
     return hw, ds, mini
 
 
@@ -905,6 +950,106 @@ def r23_guard(ctx, repo):
 
 
 # ----------------------------------------------------------------------
+# R2.8 override / exists act on the final path
+
+def r28(ctx, repo, feats):
+    cls = repo.cls(EXP, "Export")
+    scalars = {"deform", "area_um", "time"}
+    small = {"deform": "scalar", "area_um": "scalar", "time": "scalar",
+             "image": "stack"}
+    for meth, suf in (("hdf5", ".rtdc"), ("tsv", ".tsv"), ("fcs", ".fcs"),
+                      ("avi", ".avi")):
+        f = repo.func(EXP, f"Export.{meth}")
+        final = "out" + suf
+        scen = [
+            ("out", {final}, True, "ok"),
+            (final, {final}, True, "ok"),
+            ("out", {final}, False, "refuse"),
+            (final, {final}, False, "refuse"),
+            ("out", {"out"}, True, "ok"),
+            ("out", set(), False, "ok"),
+        ]
+        bad = None
+        for given, existing, override, want in scen:
+            fs = FSM(existing)
+            p = PathM(given, fs=fs)
+            tag = (f"path '{given}', existing files {sorted(existing)}, "
+                   f"override={override}")
+            fault = None
+            try:
+                if meth == "hdf5":
+                    run_hdf5(repo, {"deform": "scalar"}, "hdf5",
+                             MASKS5[0], True, {}, path=p, override=override)
+                else:
+                    hw = HW()
+
+                    def get_writer(uri=None, **k):
+                        nm = str(uri)
+                        fs.events.append(("open", nm, "wb",
+                                          nm in fs.existing))
+                        fs.existing.add(nm)
+                        return NS("vout", append_data=lambda im: None,
+                                  close=lambda: None)
+                    mini = base_globals(repo, hw, 2, scalars, {
+                        "fcswrite": NS("fcswrite", write_fcs=lambda **k:
+                                       fs.events.append(
+                                           ("open", str(k.get("filename")),
+                                            "wb", str(k.get("filename"))
+                                            in fs.existing))),
+                        "imageio": NS("imageio", get_writer=get_writer)})
+                    mini.g["np"] = numpy_model(savetxt=lambda *a, **k: None)
+                    fd = {n: make_feature(n, k, 5, meth != "avi")
+                          for n, k in small.items()}
+                    ds = DS(fd, 5, "hdf5", MASKS5[0], scalars)
+                    me = SelfM(mini, cls, ds)
+                    if meth == "avi":
+                        me.avi(p, override=override)
+                    else:
+                        getattr(me, meth)(p, ["deform", "time"],
+                                          override=override)
+            except ModelFault as e:
+                fault = str(e)
+            writes = [ev for ev in fs.events if ev[0] in ("open", "writer")]
+            if want == "refuse":
+                if fault is None or "OSError" not in fault:
+                    bad = bad or (f"{tag}: the existing file '{final}' is "
+                                  f"not protected (no OSError"
+                                  + (f", but: {fault}" if fault else "")
+                                  + f"; writes: {writes})")
+                elif writes or final not in fs.existing:
+                    bad = bad or (f"{tag}: the file was touched before the "
+                                  f"refusal ({fs.events})")
+                continue
+            if fault is not None:
+                bad = bad or f"{tag}: {fault}"
+                continue
+            targets = {ev[1] for ev in writes}
+            if targets != {final}:
+                bad = bad or (f"{tag}: data are written to "
+                              f"{sorted(targets)}, the final path is "
+                              f"'{final}'")
+                continue
+            first = writes[0]
+            stale = first[3] and not (first[0] == "open"
+                                      and "w" in first[2])
+            if stale:
+                bad = bad or (
+                    f"{tag}: '{final}' still exists when the writer is "
+                    f"opened in mode '{first[2]}': the new events are "
+                    f"appended to the old file (the unlink / exists test "
+                    f"acted on the path before the suffix was added)")
+            if "out" in existing and "out" not in fs.existing:
+                bad = bad or (f"{tag}: the unrelated file 'out' was removed "
+                              f"(unlink acted on the path before the suffix "
+                              f"was added)")
+        ctx.ob("R2.8", bad is None,
+               f"{meth}: the exists test, the removal of an existing file "
+               f"and the writer all act on the final path '{final}'"
+               if bad is None else f"{meth}: {bad}", node=f,
+               label=f"{meth} override acts on the final path")
+
+
+# ----------------------------------------------------------------------
 # R2.7 lazy accessors of hierarchy children
 
 HEV = "dclab/rtdc_dataset/fmt_hierarchy/events.py"
@@ -1021,6 +1166,8 @@ def run(ctx):
     ctx.rule("R2.7", "lazily filled feature accessors of hierarchy children "
              "remember a value that does not depend on per-call arguments",
              minimum=1)
+    ctx.rule("R2.8", "export: exists test, removal under override and the "
+             "writer act on the final (suffix-normalised) path", minimum=4)
     ctx.rule("R2.1", "store_filtered_feature stores exactly the selected "
              "events per feature kind, also for a mask longer than the "
              "feature", minimum=10)
@@ -1043,6 +1190,7 @@ def run(ctx):
     r25(ctx, repo, feats)
     r24(ctx, repo)
     r27(ctx, repo)
+    r28(ctx, repo, feats)
 
 
 def _re(pattern, repl):
@@ -1302,9 +1450,7 @@ META_LOOP = ("        # only cfg metadata (no analysis metadata)\n"
              "        # add user-defined metadata\n"
              '        if "user" in ds.config:\n'
              '            meta["user"] = ds.config["user"].copy()\n')
-CHILD_MEMO = ("            self._array = hparent[self.feat][filt_arr]\n"
-              "        return np.array(self._array, dtype=dtype, copy=copy, "
-              "*args, **kwargs)\n")
+CHILD_MEMO = "            self._array = hparent[self.feat][filt_arr]\n"
 
 MUTANTS = list(MUTANTS) + [
     ("hdf5: one loop over all sections without copying (seeded)", EXP,
@@ -1316,17 +1462,14 @@ MUTANTS = list(MUTANTS) + [
      HEV,
      (CHILD_MEMO,
       "            self._array = np.asarray(hparent[self.feat][filt_arr],\n"
-      "                                     dtype=dtype, *args, **kwargs)\n"
-      "        return np.array(self._array, dtype=dtype, copy=copy)\n"),
+      "                                     dtype=dtype, *args, **kwargs)\n"),
      "R2.7"),
     ("child scalar: memo dtype through a local", HEV,
      (CHILD_MEMO,
       "            arr = np.asarray(hparent[self.feat][filt_arr])\n"
       "            if dtype is not None:\n"
       "                arr = arr.astype(dtype)\n"
-      "            self._array = arr\n"
-      "        return np.array(self._array, dtype=dtype, copy=copy, "
-      "*args, **kwargs)\n"), "R2.7"),
+      "            self._array = arr\n"), "R2.7"),
     ("tsv: table narrowed to float32 (seeded)", EXP,
      ("                       np.array(data).transpose(),\n"
       '                       fmt=str("%.10e"),',
@@ -1343,13 +1486,63 @@ TWINS = list(TWINS) + [
     ("child scalar: plain array remembered, converted per call", HEV,
      (CHILD_MEMO,
       "            arr = hparent[self.feat][filt_arr]\n"
-      "            self._array = np.asarray(arr)\n"
-      "        return np.array(self._array, dtype=dtype, copy=copy, "
-      "*args, **kwargs)\n")),
+      "            self._array = np.asarray(arr)\n")),
     ("tsv: table explicitly float64", EXP,
      ("                       np.array(data).transpose(),\n"
       '                       fmt=str("%.10e"),',
       "                       np.array(data, dtype=np.float64).transpose(),\n"
       '                       fmt=str("%.10e"),')),
+]
+
+
+_HDF5_EXISTS = ('        if not override and path.exists():\n'
+                '            raise OSError("File already exists: {}\\n".'
+                'format(path)\n'
+                '                          + "Please use the '
+                '`override=True` option.")\n'
+                '        elif path.exists():\n'
+                '            path.unlink()\n')
+_TSV_SUFFIX = ('        # Make sure that path ends with .tsv\n'
+               '        if path.suffix != ".tsv":\n'
+               '            path = path.with_name(path.name + ".tsv")\n')
+_TSV_CHECK = ('        # Check if file already exist\n'
+              '        if not override and path.exists():\n'
+              '            raise OSError("File already exists: {}\\n".'
+              'format(\n'
+              '                str(path).encode("ascii", "ignore")) +\n'
+              '                "Please use the `override=True` option.")\n')
+
+MUTANTS = list(MUTANTS) + [
+    ("hdf5: existing file removed before the suffix is added (seeded)", EXP,
+     [("        path = pathlib.Path(path)\n"
+       "        # Make sure that path ends with .rtdc\n",
+       "        path = pathlib.Path(path)\n"
+       "        if override and path.exists():\n"
+       "            path.unlink()\n"
+       "        # Make sure that path ends with .rtdc\n"),
+      ("        elif path.exists():\n            path.unlink()\n\n"
+       "        # make sure the parent directory exists", "\n"
+       "        # make sure the parent directory exists")], "R2.8"),
+    ("hdf5: existing file kept under override (appended to)", EXP,
+     ("        elif path.exists():\n            path.unlink()\n\n"
+      "        # make sure the parent directory exists", "\n"
+      "        # make sure the parent directory exists"), "R2.8"),
+    ("tsv: exists test before the suffix is added", EXP,
+     (_TSV_SUFFIX + _TSV_CHECK, _TSV_CHECK + _TSV_SUFFIX, 0), "R2.8"),
+    ("hdf5: override flag inverted in the exists test", EXP,
+     ("        if not override and path.exists():\n"
+      '            raise OSError("File already exists: {}\\n".format(path)',
+      "        if override and path.exists():\n"
+      '            raise OSError("File already exists: {}\\n".format(path)'),
+     "R2.8"),
+]
+
+TWINS = list(TWINS) + [
+    ("hdf5: exists test nested", EXP,
+     (_HDF5_EXISTS,
+      '        if path.exists():\n'
+      '            if not override:\n'
+      '                raise OSError("File already exists: {}".format(path))\n'
+      '            path.unlink()\n')),
 ]
 
